@@ -5,6 +5,7 @@ import (
 	"encoding/json"
 	"fmt"
 	"runtime"
+	"strings"
 	"sync"
 	"sync/atomic"
 	"testing/synctest"
@@ -229,6 +230,13 @@ func (t *RecTransport) Unblock() {
 	t.mu.Unlock()
 }
 
+// FailFromNow makes every write from now on fail (transport error injection).
+func (t *RecTransport) FailFromNow() {
+	t.mu.Lock()
+	t.opts.FailWriteAt = t.writeCalls + 1
+	t.mu.Unlock()
+}
+
 // OnFrame registers a callback invoked (outside the transport lock) for every recorded frame.
 func (t *RecTransport) OnFrame(f func(Frame)) {
 	t.mu.Lock()
@@ -420,6 +428,29 @@ func (c *Conn) ReplyFor(id uint32) (Frame, bool) {
 		}
 	}
 	return Frame{}, false
+}
+
+// GaugeSum sums every sample of the metric families whose name ends with suffix.
+func GaugeSum(reg *prometheus.Registry, suffix string) float64 {
+	mfs, err := reg.Gather()
+	if err != nil {
+		return -1
+	}
+	var sum float64
+	for _, mf := range mfs {
+		if !strings.HasSuffix(mf.GetName(), suffix) {
+			continue
+		}
+		for _, m := range mf.GetMetric() {
+			if m.Gauge != nil {
+				sum += m.Gauge.GetValue()
+			}
+			if m.Counter != nil {
+				sum += m.Counter.GetValue()
+			}
+		}
+	}
+	return sum
 }
 
 // Creds is a convenience OnConnecting handler result.
